@@ -20,7 +20,7 @@ from sim import ops as simops
 CELLS = {"interval": 1, "triangle": 2, "tetrahedron": 3, "quadrilateral": 2}
 GEO_SCALAR = ["CellVolume", "Circumradius", "FacetArea", "CellDiameter", "MinFacetEdgeLength", "MaxFacetEdgeLength", "MinCellEdgeLength", "MaxCellEdgeLength"]
 GEO_OTHER = ["SpatialCoordinate", "FacetNormal", "Jacobian", "JacobianDeterminant", "JacobianInverse", "CellNormal"]
-MATH1 = ["sin", "cos", "exp", "sqrt", "ln", "tanh", "atan", "erf", "sinh", "cosh"]
+MATH1 = ["sin", "cos", "exp", "sqrt", "ln", "tanh", "atan", "erf", "sinh", "cosh", "tan", "acos", "asin"]
 CFD_FLAGS = [
     "do_apply_function_pullbacks",
     "do_apply_integral_scaling",
@@ -315,7 +315,9 @@ class Planner:
     def _op(self, M, depth):
         r = self.rng
         g = M["gdim"]
-        k = r.randrange(30)
+        k = r.randrange(34)
+        if k >= 30:
+            return self._op_extra(M, depth)
         if k >= 27 and self.fam.get("flat", True):
             return self.flat(M)
         a = self.expr(M, depth - 1)
@@ -503,6 +505,90 @@ class Planner:
             if cnd is None:
                 return None
             return self.call("operator.mul", self.ref(cnd), self.ref(ai))
+        return a
+
+    def _op_extra(self, M, depth):
+        """Less common public operators (each has its own node class with its own
+        constructor, repr, signature data and pickling)."""
+        r = self.rng
+        g = M["gdim"]
+        k = r.randrange(16)
+        if k == 0:
+            s = self.scalar(M, depth - 1)
+            if s is None:
+                return None
+            return self.call("ufl." + r.choice(["bessel_J", "bessel_Y", "bessel_I", "bessel_K"]), r.choice([0, 1, 2]), self.ref(s))
+        if k == 1:
+            s1, s2 = self.scalar(M, depth - 1), self.scalar(M, depth - 1)
+            if s1 is None or s2 is None:
+                return None
+            return self.call("ufl.atan2", self.ref(s1), self.ref(s2))
+        if k in (2, 3):
+            a = self.expr(M, depth - 1)
+            if a is None or self.nfi(a):
+                return None
+            return self.call("ufl." + ("cell_avg" if k == 2 else "facet_avg"), self.ref(a))
+        a = self.expr(M, depth - 1)
+        if a is None:
+            return None
+        A = self.ref(a)
+        sh = self.shape(a)
+        if k == 4:
+            return self.call("ufl.nabla_div", A) if sh else self.call("ufl.nabla_grad", A)
+        if k == 5:
+            if sh == (2,):
+                return self.call("ufl." + r.choice(["perp", "rot"]), A)
+            return None
+        if k == 6:
+            if len(sh) == 2 and sh[0] == sh[1]:
+                return self.call("ufl." + r.choice(["diag", "diag_vector"]), A)
+            if len(sh) == 1:
+                return self.call("ufl.diag", A)
+            return None
+        if k == 7:
+            b = self.expr(M, depth - 1)
+            if b is None or self.shape(b) != sh or not sh:
+                return None
+            return self.call("ufl.elem_pow", A, self.ref(b))
+        if k == 8:
+            if sh == () and not self.nfi(a):
+                return self.call("ufl.Dn", A)
+            return None
+        if k == 9:
+            return self.call("ufl.Dx", A, r.randrange(g))
+        if k == 10:
+            d = r.choice([2, 3])
+            t = self.call("ufl.unit_vector", r.randrange(d), d) if r.random() < 0.5 else self.call("ufl.unit_matrix", r.randrange(d), r.randrange(d), d)
+            return t
+        if k == 11:
+            return self.call("ufl.zero", *[self.lit_tuple(sh)] if sh else [])
+        if k == 12:
+            c = self.call("ufl." + r.choice(["VectorConstant", "TensorConstant"]), self.ref(M["slot"]), kind="const")
+            if c is not None:
+                M["consts"].append(c)
+            return c
+        if k == 13:
+            # components of a coefficient on a mixed space
+            mixed = [c for c in M["coefs"] if type(self.obj(c).ufl_element()).__name__ == "MixedElem"]
+            if not mixed:
+                return None
+            tmp = self.new()
+            c = r.choice(mixed)
+            if not self.emit(["call", tmp, "ufl.split", [self.ref(c)]]):
+                return None
+            n = self.obj(c).ufl_element().num_sub_elements
+            outs = [self.new() for _ in range(n)]
+            self.emit(["unpack", None, self.ref(tmp), outs])
+            ok = [o for o in outs if o in self.node.slots]
+            for o in ok:
+                self.info[o] = self.describe(self.node.slots[o])
+            return r.choice(ok) if ok else None
+        if k == 14:
+            if sh == ():
+                return self.call("ufl.exterior_derivative", A)
+            return None
+        if k == 15:
+            return self.call("ufl.elem_op", ["fn", r.choice(["ufl.sin", "ufl.cos"])], A) if sh else None
         return a
 
     # ------------------------------------------------------ targeted families (DESIGN 2.1)
